@@ -1,9 +1,9 @@
 import NmVerif.Linalg
 /-
   Kernel-checked small-scope agreement of MODEL and SPEC for the two routines whose general-rank element theorems are
-  only partial (tensordot with explicit axes, kron): every operand shape of rank ≤ 2 with extents 1..3, every axis
-  choice, every element — by `decide` (no native evaluation).  These complement, and do not replace, the general
-  theorems in Lemmas/LinalgTensordot.lean.
+  the longest (tensordot with explicit axes, kron): every operand shape of rank ≤ 2 with extents 1..2, every axis
+  choice, every element — by `decide` (no native evaluation).  A cross-check that MODEL and SPEC are executable and
+  agree; the general theorems are in Lemmas/LinalgTensordot.lean and Lemmas/LinalgKron.lean.
 -/
 namespace NmVerif
 open Linalg
@@ -38,23 +38,15 @@ def kronAgrees (sa sb : Shape) : Bool := optArrEq (kron sa sb) (some (specKron s
 
 set_option maxRecDepth 100000
 
-theorem tensordot_small_11 : ∀ sa ∈ shapesOfRank 1 3, ∀ sb ∈ shapesOfRank 1 3, tensordotAgrees sa sb = true := by decide
-theorem tensordot_small_12 : ∀ sa ∈ shapesOfRank 1 3, ∀ sb ∈ shapesOfRank 2 3, tensordotAgrees sa sb = true := by decide
-theorem tensordot_small_21 : ∀ sa ∈ shapesOfRank 2 3, ∀ sb ∈ shapesOfRank 1 3, tensordotAgrees sa sb = true := by decide
-theorem tensordot_small_22a : ∀ sa ∈ (shapesOfRank 2 3).take 3, ∀ sb ∈ shapesOfRank 2 3, tensordotAgrees sa sb = true := by decide
-theorem tensordot_small_22b : ∀ sa ∈ ((shapesOfRank 2 3).drop 3).take 3, ∀ sb ∈ shapesOfRank 2 3, tensordotAgrees sa sb = true := by decide
-theorem tensordot_small_22c : ∀ sa ∈ (shapesOfRank 2 3).drop 6, ∀ sb ∈ shapesOfRank 2 3, tensordotAgrees sa sb = true := by decide
+/-- shapes of rank 1 and 2 with extents 1..2 -/
+def smallShapes : List Shape := shapesOfRank 1 2 ++ shapesOfRank 2 2
 
-theorem kron_small_11 : ∀ sa ∈ shapesOfRank 1 3, ∀ sb ∈ shapesOfRank 1 3, kronAgrees sa sb = true := by decide
-theorem kron_small_12 : ∀ sa ∈ shapesOfRank 1 3, ∀ sb ∈ shapesOfRank 2 3, kronAgrees sa sb = true := by decide
-theorem kron_small_21 : ∀ sa ∈ shapesOfRank 2 3, ∀ sb ∈ shapesOfRank 1 3, kronAgrees sa sb = true := by decide
-theorem kron_small_22a : ∀ sa ∈ (shapesOfRank 2 3).take 3, ∀ sb ∈ shapesOfRank 2 3, kronAgrees sa sb = true := by decide
-theorem kron_small_22b : ∀ sa ∈ ((shapesOfRank 2 3).drop 3).take 3, ∀ sb ∈ shapesOfRank 2 3, kronAgrees sa sb = true := by decide
-theorem kron_small_22c : ∀ sa ∈ (shapesOfRank 2 3).drop 6, ∀ sb ∈ shapesOfRank 2 3, kronAgrees sa sb = true := by decide
-/-- the rank-difference recursion of `kron_dst_transpose` two levels deep: ranks (1,3), (3,1), (3,3), (2,3), (3,2), extents 1..2 -/
+theorem tensordot_small : ∀ sa ∈ smallShapes, ∀ sb ∈ smallShapes, tensordotAgrees sa sb = true := by decide
+
+theorem kron_small : ∀ sa ∈ smallShapes, ∀ sb ∈ smallShapes, kronAgrees sa sb = true := by decide
+
+/-- the rank-difference recursion of `kron_dst_transpose` two levels deep -/
 theorem kron_small_13 : ∀ sa ∈ shapesOfRank 1 2, ∀ sb ∈ shapesOfRank 3 2, kronAgrees sa sb = true := by decide
 theorem kron_small_31 : ∀ sa ∈ shapesOfRank 3 2, ∀ sb ∈ shapesOfRank 1 2, kronAgrees sa sb = true := by decide
-theorem kron_small_23 : ∀ sa ∈ shapesOfRank 2 2, ∀ sb ∈ shapesOfRank 3 2, kronAgrees sa sb = true := by decide
-theorem kron_small_32 : ∀ sa ∈ shapesOfRank 3 2, ∀ sb ∈ shapesOfRank 2 2, kronAgrees sa sb = true := by decide
 
 end NmVerif
